@@ -70,20 +70,33 @@ Value& HEXExpression::value(Context & ctx) const
           n = *arg1.integer();
           break;
         case Type::NUMERIC:
-          n = Integer(*arg1.numeric());
+        {
+          Numeric d = *arg1.numeric();
+          if (!(d >= -9223372036854775808.0 && d < 9223372036854775808.0))
+            throw RuntimeError(EXC_RT_OUT_OF_RANGE);
+          n = static_cast<Integer>(d);
           break;
+        }
         default:
           throw RuntimeError(EXC_RT_FUNC_ARG_TYPE_S, KEYWORDS[FUNC_HEX]);
         }
     }
+    /* more than 16 digits are never written: keep the counter of hex() in range */
+    if (n > Integer(2 * sizeof(Integer)))
+      n = Integer(2 * sizeof(Integer));
     switch (arg0.type().major())
     {
     case Type::INTEGER:
       v = Value(new Literal(hex(*arg0.integer(), n)));
       break;
     case Type::NUMERIC:
-      v = Value(new Literal(hex(Integer(*arg0.numeric()), n)));
+    {
+      Numeric d = *arg0.numeric();
+      if (!(d >= -9223372036854775808.0 && d < 9223372036854775808.0))
+        throw RuntimeError(EXC_RT_OUT_OF_RANGE);
+      v = Value(new Literal(hex(static_cast<Integer>(d), n)));
       break;
+    }
     default:
       throw RuntimeError(EXC_RT_FUNC_ARG_TYPE_S, KEYWORDS[FUNC_HEX]);
     }
